@@ -334,10 +334,16 @@ def facts(repo):
             for m in c.body:
                 if isinstance(m, ast.FunctionDef) and m.name == "_check_object_constraints" and has_gm:
                     n_over += 1
-                    sup = [s for s in m.body if isinstance(s, ast.Expr) and isinstance(s.value, ast.Call)
+                    body = _strip_doc(m.body)
+                    sup = [s for s in body if isinstance(s, ast.Expr) and isinstance(s.value, ast.Call)
                            and up(s.value).startswith("super(") and up(s.value).endswith("._check_object_constraints()")]
                     if not sup:
                         unchecked.append("%s.%s" % (rel, c.name))
+                    elif body[0] is not sup[0]:
+                        # the base check must come first: anything before it (an early return, a swallowed
+                        # exception) could leave the selectors of the granular markings unvalidated
+                        raise TranslateError("%s.%s._check_object_constraints: the base check is not the first statement"
+                                             % (rel, c.name))
     if unchecked == []:
         F["ind20"] = "Ind20Checked"
     elif unchecked == ["v20.sdo.Indicator"]:
